@@ -466,6 +466,9 @@ class DataFile:
     begin_time = tci.to_temporal_offset() - self.start_offset
     if begin_time < 0:
       LOGGER.debug("Skipping subtitle because TCI is less than start time")
+      if tti.CS in (0x00, 0x01):
+        # the following subtitles of a cumulative set, if any, do not belong to the previous subtitle
+        self.cur_p_element = None
       return
     LOGGER.debug("  Time in: %s", tci)
 
@@ -477,7 +480,10 @@ class DataFile:
 
     # create a new subtitle if SN changes and we are not in cumulative mode
 
-    if tti.SN is not self.last_sn and tti.CS in (0x00, 0x01):
+    # also create a new subtitle if a cumulative set does not start with its first subtitle, e.g. because the latter
+    # precedes the start of the programme
+
+    if (tti.SN != self.last_sn and tti.CS in (0x00, 0x01)) or self.cur_p_element is None:
 
       self.last_sn =  tti.SN
 
